@@ -118,6 +118,15 @@ CfiSec(X, nm, dev) ==
 HasCfi(st) == \E b \in Range(AllBlocks(st)) : b.cfi # <<>>
 PatchCfi(t) == \E i \in DOMAIN t.reqs : t.reqs[i].patch.cfi # <<>>
 NoDeletions(t) == \A i \in DOMAIN t.reqs : t.reqs[i].len = 0
+\* the property speaks of patches that carry no or BALANCED CFI: the state right
+\* behind the patch equals the state at the insertion point before the rewrite
+PatchesBalanced(X, C) ==
+  \A i \in DOMAIN X.t.reqs :
+     X.t.reqs[i].patch.cfi # <<>> =>
+        \E nm \in DOMAIN C.S :
+           LET i0 == PtIndex(C.S[nm].L0, X.t.reqs[i].u, X.t.reqs[i].off)
+               ie == PtIndex(C.S[nm].Ex, X.t.reqs[i].u, X.t.reqs[i].off)
+           IN  i0 # 0 /\ ie # 0 /\ StateAtItem(C.S[nm].R0, i0) = StateAtItem(C.S[nm].Re, ie)
 \* a deleted range that holds a whole procedure (startproc ... endproc) takes
 \* the procedure with it; the structural clauses do not cover that case
 DeletesWholeProc(X, nm) ==
